@@ -67,7 +67,10 @@ func c08Pipelines() [][]string {
 		}
 	}
 	rec(nil, 0)
-	return out // 64 orderings
+	// and pipelines in which a filter occurs twice (with other parameters where it has any)
+	out = append(out, []string{"gzip", "gzip"}, []string{"gzip", "fletcher32", "gzip"}, []string{"shuffle", "shuffle"},
+		[]string{"fletcher32", "fletcher32"}, []string{"lzf", "gzip", "lzf"}, []string{"shuffle", "gzip", "shuffle", "gzip"})
+	return out // 64 orderings of distinct filters + 6 with repeats
 }
 
 var c08AllPipelines = c08Pipelines()
